@@ -117,6 +117,7 @@ def judge_field(ctx, field, game, bits, v, stored, replay, signed_only=False, un
         ctx.violation('narrowing:%s:stored-wrong-value' % field, '%s = %d was stored as %d' % (field, v, stored), replay); return False
     ctx.count('accepted_and_verified')
     ctx.fp('field', '%s %s %s' % (field, game, vclass(v, bits)))
+    ctx.sample({'field': field, 'game': game, 'requested': v, 'stored_bits': stored, 'class': vclass(v, bits)}, cap=3)
     return True
 
 def u(x, bits): return x % (1 << bits)
